@@ -23,6 +23,9 @@ pub trait KeyColl: KeyExpCollection<KKey, i32, u64> + Sized {
     fn snap(&self) -> Option<KSnap>;
     fn dup(&self) -> Option<Self>;
     fn export(self, t: i32) -> Vec<u64>;
+    /// canonical form of the physical state relative to time `t` (lifetimes clamped to 0..=r+1)
+    /// and the number of physically stored entries; None if the state cannot be observed
+    fn phys_canon(&self, t: i32, r: i32) -> Option<(Vec<u8>, usize)>;
 }
 
 impl KeyColl for KeyExpTree<KKey, i32, u64> {
@@ -40,6 +43,15 @@ impl KeyColl for KeyExpTree<KKey, i32, u64> {
     fn export(self, t: i32) -> Vec<u64> {
         self.into_ordered_vec(t)
     }
+    fn phys_canon(&self, t: i32, r: i32) -> Option<(Vec<u8>, usize)> {
+        let s = self.verif_snapshot(|k, v| (k.k, k.exp, *v));
+        let c = snap::canonical(&s, |p, out| {
+            out.push(p.0 as u8);
+            out.push((p.1 - t).clamp(0, r + 1) as u8);
+        });
+        let n = c.iter().filter(|&&b| b == snap::CANON_RED || b == snap::CANON_BLACK).count();
+        Some((c, n))
+    }
 }
 
 impl KeyColl for KeyExpList<KKey, i32, u64> {
@@ -52,10 +64,22 @@ impl KeyColl for KeyExpList<KKey, i32, u64> {
         None
     }
     fn dup(&self) -> Option<Self> {
-        None
+        Some(self.verif_clone())
     }
     fn export(self, t: i32) -> Vec<u64> {
         self.into_ordered_vec(t)
+    }
+    fn phys_canon(&self, t: i32, r: i32) -> Option<(Vec<u8>, usize)> {
+        // buffer content in order, plus the cached earliest expiration (the list's hidden state)
+        let (entries, min_exp) = self.verif_state(|k, _| (k.k, k.exp));
+        let mut c = Vec::with_capacity(2 * entries.len() + 2);
+        for (k, e) in &entries {
+            c.push(*k as u8);
+            c.push((e - t).clamp(0, r + 1) as u8);
+        }
+        c.push(0xFC);
+        c.push(if min_exp == i32::MAX { 0xEE } else { (min_exp - t).clamp(0, r + 1) as u8 });
+        Some((c, entries.len()))
     }
 }
 
